@@ -203,6 +203,15 @@ StaleFamily == { Scn("stale", F(tp, <<>>), ins, cs) :
                    tp \in {<<L("", "T1", "s"), L("x", "T2", "")>>, <<L("x", "T2", ""), L("", "T1", "s")>>},
                    ins \in {<<L("", "T1", "s"), L("", "T3", "")>>, <<L("", "T3", ""), L("", "T1", "s")>>},
                    cs \in PermSeqs({F(<<L("", "T3", ""), L("", "T1", "t")>>, <<L("x", "T2", "")>>), F(<<L("", "T3", ""), L("", "T4", "")>>, <<L("", "T1", "t")>>)}) }
+\* a diamond below a two-input converter (acyclic, every converter satisfiable): A (T1,T2)->T3, B T3->T4, C (T3,T4)->T5 - A is
+\* needed twice, once directly and once through B; and two chained single-input converters over named values that are fed
+\* by same-named values with a subtype
+DiamondFamily == { Scn("diamond", F(<<L("", "T5", "")>>, <<>>), ins, cs) :
+                     ins \in PermSeqs({L("", "T1", ""), L("", "T2", "")}),
+                     cs \in PermSeqs({FP(<<L("", "T1", ""), L("", "T2", "")>>, <<L("", "T3", "")>>), FP(<<L("", "T3", "")>>, <<L("", "T4", "")>>),
+                                      FP(<<L("", "T3", ""), L("", "T4", "")>>, <<L("", "T5", "")>>)}) }
+                 \cup { Scn("diamond", F(<<L("", "T3", "")>>, <<>>), <<L("a", "T1", "x")>>, cs) :
+                     cs \in PermSeqs({F(<<L("a", "T1", "")>>, <<L("b", "T2", "y")>>), F(<<L("b", "T2", "")>>, <<L("", "T3", "")>>)}) }
 \* a converter whose Go signature is the target's own (a function vertex is identified by its type: the two collapse)
 SameSigFamily == { Scn("samesig", f, ins, <<f>> \o more) :
                      f \in {FP(<<L("", "T1", "")>>, <<L("", "T2", "")>>), F(<<L("a", "T1", "")>>, <<L("", "T2", "")>>)},
@@ -280,9 +289,9 @@ C16Family == C16Sub \cup C16Nil \cup C16NoParam \cup C16Reuse \cup UNION { { [Sc
 -----------------------------------------------------------------------------
 FamilyScenarios == CASE Family = "C03" -> C03Family \cup SameSigFamily
                      [] Family = "C07" -> C07Family
-                     [] Family = "C05" -> C05Family \cup CycleFamily \cup MatchFamily \cup XFamily
+                     [] Family = "C05" -> C05Family \cup CycleFamily \cup MatchFamily \cup XFamily \cup DiamondFamily
                      [] Family = "C08" -> C08Family \cup C08k
-                     [] Family = "C02" -> CycleFamily \cup C05Family \cup MatchFamily \cup XFamily
+                     [] Family = "C02" -> CycleFamily \cup C05Family \cup MatchFamily \cup XFamily \cup DiamondFamily
                      [] Family = "C06" -> CycleFamily \cup C04Family
                      [] Family = "C04" -> C04Family
                      [] Family = "C13" -> CycleFamily \cup MatchFamily \cup SlashFamily
